@@ -222,6 +222,10 @@ def gen_op(spec, rng, codec, fs, s, m, cls, oid, client):
         op.pop("stop_after", None)
         op["call"] = {}
         op["faults"] = c07.gen_faults(rng, spec, fs, s, m, {}, len(op["pages"]))
+        if client == "rest":
+            from .. import simhttp
+            op["faults"] = {k: [o for o in v if o["code"] in simhttp.ROUND_TRIP] for k, v in op["faults"].items()}
+            op["faults"] = {k: v for k, v in op["faults"].items() if v}
         val = op["request"]
     else:
         val = values.rand_valuation(rng, codec.desc(m["input"]), 0, 2, 0.4)
@@ -229,9 +233,13 @@ def gen_op(spec, rng, codec, fs, s, m, cls, oid, client):
               "form": rng.choice(["msg", "dict"]), "request": val}
         T, pol, retry_T = c09.call_policy(spec, fs, s, m, {})
         script = []
-        if pol and rng.random() < 0.4:
+        codes = pol["codes"] if pol else []
+        if client == "rest":
+            from .. import simhttp
+            codes = [c for c in codes if c in simhttp.ROUND_TRIP]    # (a 401 would make google-auth refresh anonymous credentials)
+        if codes and rng.random() < 0.4:
             for _ in range(rng.randint(1, 2)):
-                script.append({"code": rng.choice(pol["codes"])})
+                script.append({"code": rng.choice(codes)})
         script.append({"reply": {}})
         op["server"] = script
     for f in routed_fields(spec, m):
